@@ -17,7 +17,9 @@ import copy
 
 import numpy as np
 
-from vf.drive.bench import EX, T0, Recorder, format_config
+from vf.drive.bench import EX as DEFAULT_EX, T0, Recorder, format_config
+
+CUR_EX = [DEFAULT_EX]  # exchange name of the session being run
 
 CURRENT = [None]
 
@@ -189,13 +191,13 @@ def install_sim_wrappers():
 def snapshot_accounts():
     from jesse.store import store
     from jesse.routes import router
-    ex = store.exchanges.storage[EX]
+    ex = store.exchanges.storage[CUR_EX[0]]
     d = dict(assets={k: float(v) for k, v in ex.assets.items()}, positions={}, resting=[])
     for r in router.routes:
-        p = store.positions.storage[f'{EX}-{r.symbol}']
+        p = store.positions.storage[f'{CUR_EX[0]}-{r.symbol}']
         d['positions'][r.symbol] = dict(qty=float(p.qty), entry=None if p.entry_price is None else float(p.entry_price),
                                         cur=None if p.current_price is None else float(p.current_price))
-        for o in store.orders.get_orders(EX, r.symbol):
+        for o in store.orders.get_orders(CUR_EX[0], r.symbol):
             if o.is_active:
                 d['resting'].append(dict(sym=o.symbol, side=o.side, qty=float(o.qty), price=float(o.price), type=o.type,
                                          reduce_only=bool(o.reduce_only), ord=getattr(o, '_vf_ord', None)))
@@ -212,7 +214,7 @@ def final_snapshot(ctx):
                            orders=[getattr(o, '_vf_ord', None) for o in t.orders],
                            buys=np.array(t.buy_orders[:], dtype=float).tolist(), sells=np.array(t.sell_orders[:], dtype=float).tolist(),
                            holding_period=t.holding_period))
-    ex = store.exchanges.storage[EX]
+    ex = store.exchanges.storage[CUR_EX[0]]
     fin = dict(trades=trades, daily_balance=[float(x) for x in store.app.daily_balance], accounts=snapshot_accounts(),
                total_liquidations=store.app.total_liquidations, total_open_trades=store.app.total_open_trades,
                starting_balance=float(ex.starting_assets[ex.settlement_currency]), time=store.app.time,
@@ -228,7 +230,7 @@ def read_all_candles(ctx):
     out = {}
     for sym, tf in ctx.readable:
         try:
-            out[f'{sym}|{tf}'] = np.array(store.candles.get_candles(EX, sym, tf), dtype=float).tolist()
+            out[f'{sym}|{tf}'] = np.array(store.candles.get_candles(CUR_EX[0], sym, tf), dtype=float).tolist()
         except Exception as e:  # noqa
             out[f'{sym}|{tf}'] = {'error': f'{type(e).__name__}: {e}'}
     return out
@@ -268,11 +270,11 @@ def make_strategy(symbol, script, ctx):
                 ev.update(pos_qty=float(p.qty), pos_entry=None if p.entry_price is None else float(p.entry_price),
                           balance=float(self.balance), margin=float(self.available_margin))
                 if name in ('before', 'after'):
-                    ev['active'] = [getattr(o, '_vf_ord', None) for o in store.orders.get_orders(EX, symbol) if o.is_active]
+                    ev['active'] = [getattr(o, '_vf_ord', None) for o in store.orders.get_orders(CUR_EX[0], symbol) if o.is_active]
                 if name == 'after':
                     ev['decl'] = {k: (None if getattr(self, k) is None else np.array(getattr(self, k), dtype=float).reshape(-1, 2).tolist())
                                   for k in ('stop_loss', 'take_profit')} if _declarable(self) else None
-                    ev['via'] = {getattr(o, '_vf_ord', None): o.submitted_via for o in store.orders.get_orders(EX, symbol) if o.is_active}
+                    ev['via'] = {getattr(o, '_vf_ord', None): o.submitted_via for o in store.orders.get_orders(CUR_EX[0], symbol) if o.is_active}
             if ctx.obs == 'candles':
                 ev['candles'] = read_all_candles(ctx)
                 try:
@@ -294,7 +296,7 @@ def make_strategy(symbol, script, ctx):
         def should_cancel_entry(self):
             ans = bool(self._row().get('cancel', True))
             ctx.trace.append(dict(ev='cancel-q', sym=symbol, idx=self.index, t=store.app.time, answer=ans,
-                                  resting=[getattr(o, '_vf_ord', None) for o in store.orders.get_orders(EX, symbol) if o.is_active]))
+                                  resting=[getattr(o, '_vf_ord', None) for o in store.orders.get_orders(CUR_EX[0], symbol) if o.is_active]))
             return ans
 
         def _ref_price(self, r):
@@ -455,7 +457,7 @@ def make_strategy(symbol, script, ctx):
 def build_args(spec, ctx):
     cfg = spec['cfg']
     config = format_config(cfg['type'], cfg['fee'], cfg['balance'], cfg.get('leverage', 1), cfg.get('mode', 'cross'),
-                           name=cfg.get('exchange', EX), warm_up=cfg.get('warm_up', 0))
+                           name=cfg.get('exchange', DEFAULT_EX), warm_up=cfg.get('warm_up', 0))
     ex = config['exchange']
     routes = [{'exchange': ex, 'strategy': make_strategy(r['symbol'], spec['scripts'][r['symbol']], ctx), 'symbol': r['symbol'],
                'timeframe': r['timeframe']} for r in spec['routes']]
@@ -475,7 +477,19 @@ def build_args(spec, ctx):
     return config, routes, data, candles, warm
 
 
-def run(spec, obs='light', clean_globals=True):
+def _freeze(x):
+    if isinstance(x, dict):
+        return {k: _freeze(v) for k, v in x.items()}
+    if isinstance(x, (list, tuple)):
+        return [_freeze(v) for v in x]
+    if isinstance(x, np.ndarray):
+        return ('ndarray', x.dtype.str, x.shape, x.tobytes())
+    if isinstance(x, type):
+        return ('class', x.__name__)
+    return x
+
+
+def run(spec, obs='light', clean_globals=True, check_args=False):
     """Runs one session. Returns dict(result, error, trace, final, orders)."""
     import jesse.helpers as jh
     from jesse import research
@@ -486,6 +500,7 @@ def run(spec, obs='light', clean_globals=True):
     rec.install()
     CURRENT[0] = ctx
     config, routes, data, candles, warm = build_args(spec, ctx)
+    CUR_EX[0] = config['exchange']
     if clean_globals:
         # The harness isolates sessions from each other (C11 is the property that checks jesse doing so itself).
         from jesse.config import config as jc
@@ -496,8 +511,10 @@ def run(spec, obs='light', clean_globals=True):
         api.initiate_drivers()
         jh.CACHED_CONFIG.clear()
     result, error = None, None
+    frozen = _freeze(dict(config=config, routes=routes, data_routes=data, candles=candles, warmup_candles=warm, hyperparameters=spec.get('hp'))) if check_args else None
+    hp_arg = spec.get('hp')
     try:
-        result = research.backtest(config, routes, data, candles, warmup_candles=warm, hyperparameters=spec.get('hp'),
+        result = research.backtest(config, routes, data, candles, warmup_candles=warm, hyperparameters=hp_arg,
                                    fast_mode=bool(spec.get('fast')))
     except Exception as e:  # noqa
         import traceback
@@ -510,4 +527,8 @@ def run(spec, obs='light', clean_globals=True):
         orders.append(dict(ord=o._vf_ord, sym=o.symbol, side=o.side, type=o.type, qty=float(o.qty),
                            price=None if o.price is None else float(o.price), reduce_only=bool(o.reduce_only), status=o.status,
                            created_at=o.created_at, executed_at=o.executed_at, canceled_at=o.canceled_at, via=o.submitted_via))
-    return dict(result=result, error=error, trace=ctx.trace, final=ctx.final, orders=orders)
+    out = dict(result=result, error=error, trace=ctx.trace, final=ctx.final, orders=orders)
+    if check_args:
+        after = _freeze(dict(config=config, routes=routes, data_routes=data, candles=candles, warmup_candles=warm, hyperparameters=hp_arg))
+        out['args_modified'] = [k for k in after if after[k] != frozen[k]]
+    return out
